@@ -164,6 +164,92 @@ Proof. exact ImportsProofs.import_from_va_orig_agrees. Qed.
 Print Assumptions C09_F38_orig_agrees.
 
 
+(* 6. SHAPE: which bytes are decoded how (audit: C09_import_from_va and C09_iat compare the model with the same reading over
+      slice_spec).  Stated over the bytes of the view at literal offsets (Spec/LeBytes.v: word_at / dword_at / qword_at are the
+      little-endian values written out byte by byte) and over [slice] itself, with no hypothesis on the image. *)
+From PV.Spec Require Import LeBytes.
+From PV.Proofs Require ImportsShape.
+
+(* a descriptor is the five dwords at offsets 0, 4, 8, 12, 16 of its 20-byte record:
+   OriginalFirstThunk, TimeDateStamp, ForwarderChain, Name, FirstThunk *)
+Theorem C09_desc_shape : forall get off k,
+  desc_at get off k =
+    {| d_oft := dword_at get (off + 20 * k); d_tds := dword_at get (off + 20 * k + 4); d_fwd := dword_at get (off + 20 * k + 8);
+       d_name := dword_at get (off + 20 * k + 12); d_ft := dword_at get (off + 20 * k + 16) |}.
+Proof. exact ImportsShape.desc_at_shape. Qed.
+Print Assumptions C09_desc_shape.
+
+Theorem C09_descs_shape : forall p r,
+  length (descs p r) = N.to_nat (r_len r / 20) /\
+  forall k, k < r_len r / 20 ->
+    nth_error (descs p r) (N.to_nat k) =
+    Some {| d_oft := dword_at (p_get p) (r_off r + 20 * k); d_tds := dword_at (p_get p) (r_off r + 20 * k + 4);
+            d_fwd := dword_at (p_get p) (r_off r + 20 * k + 8); d_name := dword_at (p_get p) (r_off r + 20 * k + 12);
+            d_ft := dword_at (p_get p) (r_off r + 20 * k + 16) |}.
+Proof. exact ImportsShape.descs_shape. Qed.
+Print Assumptions C09_descs_shape.
+
+(* a thunk is the pointer-wide little-endian value at offset i * pointer size of its table *)
+Theorem C09_thunk_shape : forall p r i,
+  thunk_at p r i = if f_64 (p_f p) then qword_at (p_get p) (r_off r + 8 * i) else dword_at (p_get p) (r_off r + 4 * i).
+Proof. exact ImportsShape.thunk_at_shape. Qed.
+Print Assumptions C09_thunk_shape.
+
+(* the address table / name table of a descriptor (desc_iat p d = thunks p (d_ft d), desc_int p d = thunks p (d_oft d)):
+   the table starts where slicing (pointer-aligned) at the rva starts; thunk i is the value at FirstThunk + i * va_bytes; every
+   reported thunk is non-zero, and the thunk after the last reported one lies inside the slice and is zero *)
+Theorem C09_thunks_shape : forall p rva r, thunks p rva = Ok r ->
+  let w := va_bytes p in
+  exists s, slice (p_v p) rva 0 w = Ok s /\ r_off r = r_off s /\
+    let n := r_len r / w in
+    r_len r = n * w /\ (n + 1) * w <= r_len s /\
+    length (thunk_values p r) = N.to_nat n /\
+    (forall i, i < n -> nth_error (thunk_values p r) (N.to_nat i) = Some (thunk_at p r i) /\ thunk_at p r i <> 0) /\
+    thunk_at p r n = 0.
+Proof. exact ImportsShape.thunks_shape. Qed.
+Print Assumptions C09_thunks_shape.
+
+(* thunk decoding over the bytes, every outcome: flag bit set -> ordinal = the low 16 bits; otherwise the hint is the word at
+   what slicing (2 bytes, 2-aligned) yields at rva = t mod 2^32 and the name the bytes up to and including the first NUL of what
+   slicing yields at rva + 2; each error is attributed to the step that produced it; no fault *)
+Theorem C09_import_shape : forall p t,
+  match import_from_va p t with
+  | Ok (ByOrdinal o) => N.land t (ordinal_flag p) <> 0 /\ o = t mod 65536
+  | Ok (ByName h nm) =>
+    N.land t (ordinal_flag p) = 0 /\
+    let rva := t mod 4294967296 in
+    rva + 2 < 4294967296 /\
+    exists hr s, slice (p_v p) rva 2 2 = Ok hr /\ h = word_at (p_get p) (r_off hr) /\
+      slice (p_v p) (rva + 2) 0 1 = Ok s /\ r_off nm = r_off s /\ 0 < r_len nm /\ r_len nm <= r_len s /\
+      p_get p (r_off s + r_len nm - 1) = 0 /\ forall k, k < r_len nm - 1 -> p_get p (r_off s + k) <> 0
+  | Err e =>
+    N.land t (ordinal_flag p) = 0 /\
+    let rva := t mod 4294967296 in
+    (slice (p_v p) rva 2 2 = Err e \/
+     (exists hr, slice (p_v p) rva 2 2 = Ok hr) /\
+       ((4294967296 <= rva + 2 /\ e = EOverflow) \/
+        (rva + 2 < 4294967296 /\ (slice (p_v p) (rva + 2) 0 1 = Err e \/
+           exists s, slice (p_v p) (rva + 2) 0 1 = Ok s /\ e = EEncoding /\ forall k, k < r_len s -> p_get p (r_off s + k) <> 0))))
+  | Fault _ => False
+  end.
+Proof. exact ImportsShape.import_from_va_shape. Qed.
+Print Assumptions C09_import_shape.
+
+(* the flag test is the top bit of the thunk *)
+Theorem C09_ordinal_flag_bit : forall p t,
+  N.land t (ordinal_flag p) = 0 <-> N.testbit t (if f_64 (p_f p) then 63 else 31) = false.
+Proof. exact ImportsShape.ordinal_flag_bit. Qed.
+Print Assumptions C09_ordinal_flag_bit.
+
+Example C09_shape_nonvacuous :
+  exists d, descs ex_pe {| r_off := 320; r_len := 20 |} = [d] /\
+    d = {| d_oft := dword_at (p_get ex_pe) 320; d_tds := dword_at (p_get ex_pe) 324; d_fwd := dword_at (p_get ex_pe) 328;
+           d_name := dword_at (p_get ex_pe) 332; d_ft := dword_at (p_get ex_pe) 336 |} /\
+    desc_iat ex_pe d = Ok {| r_off := 384; r_len := 8 |} /\
+    thunk_values ex_pe {| r_off := 384; r_len := 8 |} = [dword_at (p_get ex_pe) 384; dword_at (p_get ex_pe) 388] /\
+    dword_at (p_get ex_pe) 384 = 2147483655 /\ dword_at (p_get ex_pe) 392 = 0.
+Proof. exact ImportsShape.shape_nonvacuous. Qed.
+
 (* the ordinal flag of the model is the IMAGE_ORDINAL_FLAG32/64 constant of src/image.rs, regenerated on every run *)
 From PV.gen Require Consts.
 From PV.Proofs Require ConstsImports.
